@@ -246,18 +246,28 @@ class Ctx(object):
                     inconclusive=self.inconclusive, samples=self.samples, metrics=self.metrics, counts=self.counts)
 
 
+_FIRED = [False]
+
+
 def _alarm(signum, frame):
+    _FIRED[0] = True
     raise CaseTimeout()
 
 
 def run_check(prop, case, timeout):
     old = signal.signal(signal.SIGALRM, _alarm)
+    _FIRED[0] = False
     signal.setitimer(signal.ITIMER_REAL, timeout)
     try:
-        return prop.check(case)
+        out = prop.check(case)
     finally:
         signal.setitimer(signal.ITIMER_REAL, 0)
         signal.signal(signal.SIGALRM, old)
+    if _FIRED[0]:
+        # the watchdog fired inside code that swallowed or re-wrapped it (the library turns exceptions of user callables into
+        # FailedIntegration): whatever the check concluded from that is not a verdict
+        raise CaseTimeout()
+    return out
 
 
 def evaluate(ctx, case):
